@@ -886,7 +886,9 @@ func (d *cnDriver) step() error {
 		// (not the kinds whose successful transactions a trace specification follows by their recorded request: executor
 		// commitments, governance and vault transactions)
 		if k := metas[i].spec.Kind; metas[i].spec.Validity == "ok" && k != "junk" && k != "rhcommit" && k != "propose" && k != "vote" &&
-			k != "vcreate" && k != "vauth" && k != "vcancel" && !(k == "withdraw" && strings.HasPrefix(metas[i].spec.To, "V")) && d.rng.Intn(12) == 0 {
+			k != "vcreate" && k != "vauth" && k != "vcancel" && !(k == "withdraw" && strings.HasPrefix(metas[i].spec.To, "V")) &&
+			// (documented precondition of C10: node 1 / entity 1 keep their registration and stake - their transactions are left alone)
+			metas[i].spec.Signer != "N1" && metas[i].spec.Signer != "E1" && metas[i].spec.Node != "N1" && d.rng.Intn(12) == 0 {
 			if raw, sp, ok := n.mutateBody(metas[i].raw, d.rng); ok {
 				metas[i] = cnTxMeta{sp, raw}
 			}
